@@ -420,6 +420,9 @@ func (vc *VC) loadMaps(st *State, base string, idx []*Term, t types.Type) Val {
 	case TKInt:
 		v := scalar(sel(base, SInt))
 		vc.assumeType(st, v, t)
+		if isRefType(t) {
+			vc.refAxiom(base, len(idx))
+		}
 		return v
 	case TKSlice:
 		v := Val{K: VSlice, Arr: sel(base+"#arr", SInt), Off: sel(base+"#off", SInt), Len: sel(base+"#len", SInt), Cap: sel(base+"#cap", SInt)}
@@ -685,4 +688,46 @@ func (vc *VC) assumeType(st *State, v Val, t types.Type) {
 			p.Le(p.Add(v.Off, v.Cap), p.Int(1<<40)),
 		))
 	}
+}
+
+func isRefType(t types.Type) bool {
+	if isOpaqueNamed(t) {
+		return false
+	}
+	switch t.Underlying().(type) {
+	case *types.Pointer, *types.Map, *types.Chan, *types.Interface, *types.Signature:
+		return true
+	}
+	_, ok := t.(*types.TypeParam)
+	return ok
+}
+
+// refAxiom states the heap typing of the entry state for a map holding references: every reference stored
+// in it at entry was allocated at entry (<= $A@0). Emitted once per map.
+func (vc *VC) refAxiom(key string, levels int) {
+	if vc.refAx[key] {
+		return
+	}
+	vc.refAx[key] = true
+	h0, ok := vc.heap0[key]
+	if !ok {
+		return
+	}
+	a0 := vc.heap0[allocKey]
+	if a0 == nil {
+		return
+	}
+	p := vc.P
+	var vars []*Term
+	t := h0
+	for i := 0; i < levels; i++ {
+		vc.qSeq++
+		v := p.Var(fmt.Sprintf("h?%d", vc.qSeq), SInt)
+		vars = append(vars, v)
+		t = p.Select(t, v)
+	}
+	if t.S != SInt {
+		return
+	}
+	vc.assumeGlobal(p.Forall(vars, p.Le(t, a0)))
 }
